@@ -45,7 +45,9 @@ Definition stat_mode (follow : bool) (s : fs) (n : name) : option N :=
 
 (* file-system-mutating system calls *)
 Inductive sys :=
-| SysCreate (n : name) (i : ino)         (* openat(n, O_RDWR|O_CREAT|O_EXCL, 0600) -> new inode i *)
+| SysCreate (n : name) (i : ino) (samedir : bool)
+                                         (* openat(n, O_RDWR|O_CREAT|O_EXCL, 0600) -> new inode i; samedir: the name is
+                                            created in the directory of the path (observed, not interpreted) *)
 | SysWrite (i : ino) (chunk : list N)    (* write(fd of i, chunk) *)
 | SysFchmod (i : ino) (m : N)            (* fchmod(fd of i, m) *)
 | SysClose (i : ino)                     (* close(fd of i) *)
@@ -56,7 +58,7 @@ Inductive sys :=
 
 Definition apply1 (x : sys) (s : fs) : fs :=
   match x with
-  | SysCreate n i => mkFS (set (ents s) n (Some (EFile i))) (set (inos s) i (Some (mkI [] 384%N)))   (* 0600 *)
+  | SysCreate n i _ => mkFS (set (ents s) n (Some (EFile i))) (set (inos s) i (Some (mkI [] 384%N)))   (* 0600 *)
   | SysWrite i c => match inos s i with
                     | Some nd => mkFS (ents s) (set (inos s) i (Some (mkI (content nd ++ c) (mode nd))))
                     | None => s end
@@ -73,20 +75,23 @@ Definition apply1 (x : sys) (s : fs) : fs :=
 Definition apply_all (l : list sys) (s : fs) : fs := fold_left (fun s x => apply1 x s) l s.
 
 (* the environment of one call *)
-Record env := mkEnv { path : name; tmp : name; tino : ino; target : list N }.
+Record env := mkEnv { path : name; tmp : name; tino : ino; target : list N;
+                      bare : bool (* the path was given without a directory part *) }.
 (* which calls fail; how f.Write is split into write calls *)
 Record faults := mkFl { fl_create : bool; wr : list (list N); wr_ok : bool; fl_stat : bool; fl_chmod : bool;
                         fl_close : bool; fl_remove : bool; fl_rename : bool }.
 
-Record mstate := mkM { cur : fs; err : bool; fi : option N; ret : bool; trace : list sys }.
+Record mstate := mkM { cur : fs; err : bool; fi : option N; ret : bool; trace : list sys;
+                       nodir : bool (* the variable dir is "" : os.CreateTemp would use os.TempDir() *) }.
 
 Definition emit (m : mstate) (x : sys) : mstate :=
-  mkM (apply1 x (cur m)) (err m) (fi m) (ret m) (trace m ++ [x]).
+  mkM (apply1 x (cur m)) (err m) (fi m) (ret m) (trace m ++ [x]) (nodir m).
 Definition emits (m : mstate) (l : list sys) : mstate :=
-  mkM (apply_all l (cur m)) (err m) (fi m) (ret m) (trace m ++ l).
-Definition set_err (m : mstate) (b : bool) : mstate := mkM (cur m) b (fi m) (ret m) (trace m).
-Definition set_ret (m : mstate) : mstate := mkM (cur m) (err m) (fi m) true (trace m).
-Definition set_fi (m : mstate) (v : option N) : mstate := mkM (cur m) (err m) v (ret m) (trace m).
+  mkM (apply_all l (cur m)) (err m) (fi m) (ret m) (trace m ++ l) (nodir m).
+Definition set_err (m : mstate) (b : bool) : mstate := mkM (cur m) b (fi m) (ret m) (trace m) (nodir m).
+Definition set_ret (m : mstate) : mstate := mkM (cur m) (err m) (fi m) true (trace m) (nodir m).
+Definition set_fi (m : mstate) (v : option N) : mstate := mkM (cur m) (err m) v (ret m) (trace m) (nodir m).
+Definition set_nodir (m : mstate) (b : bool) : mstate := mkM (cur m) (err m) (fi m) (ret m) (trace m) b.
 
 Section Exec.
 Variable e : env.
@@ -96,8 +101,10 @@ Fixpoint exec1 (s : fstmt) (m : mstate) : mstate :=
   let seq := fix seq (l : list fstmt) (m : mstate) : mstate :=
                match l with [] => m | x :: t => if ret m then m else seq t (exec1 x m) end in
   match s with
-  | SSplitPath | STmpName => m
-  | SCreateTemp => if fl_create fl then set_err m true else emit m (SysCreate (tmp e) (tino e))
+  | STmpName => m
+  | SSplitPath => set_nodir m (bare e)
+  | SDirDot => set_nodir m false
+  | SCreateTemp => if fl_create fl then set_err m true else emit m (SysCreate (tmp e) (tino e) (negb (nodir m)))
   | SRetIfErr => if err m then set_ret m else m
   | SWrite => set_err (emits m (map (SysWrite (tino e)) (wr fl))) (negb (wr_ok fl))
   | SIfNoErr b => if err m then m else seq b m
@@ -116,6 +123,7 @@ Fixpoint exec1 (s : fstmt) (m : mstate) : mstate :=
   | SRemovePath => emit m (SysUnlink (path e))
   | SReturn => set_ret m
   | SReturnRename => set_ret (if fl_rename fl then set_err m true else emit m (SysRename (tmp e) (path e)))
+  | SRenameElse b => if fl_rename fl then seq b (set_err m true) else emit m (SysRename (tmp e) (path e))
   end.
 
 Fixpoint exec (l : list fstmt) (m : mstate) : mstate :=
@@ -123,7 +131,7 @@ Fixpoint exec (l : list fstmt) (m : mstate) : mstate :=
 
 End Exec.
 
-Definition start (s : fs) : mstate := mkM s false None false [].
+Definition start (s : fs) : mstate := mkM s false None false [] false.
 (* one run of the code in /repo now *)
 Definition run_wfb (e : env) (fl : faults) (s : fs) : mstate := exec e fl gen_wfb (start s).
 (* the file system after a crash that let the first k mutating calls through *)
@@ -132,8 +140,8 @@ Definition crash_state (e : env) (fl : faults) (s : fs) (k : nat) : fs :=
 
 (* the modelled statement list (the proofs are about it; Props/C26.v carries gen_wfb = model_wfb) *)
 Definition model_wfb : list fstmt :=
-  [SSplitPath; SCreateTemp; SRetIfErr; STmpName; SWrite; SIfNoErr [SIfStat true [SChmodStat]]; SCloseKeepErr;
-   SIfErr [SRemoveTmp; SReturn]; SReturnRename].
+  [SSplitPath; SDirDot; SCreateTemp; SRetIfErr; STmpName; SWrite; SIfNoErr [SIfStat true [SChmodStat]]; SCloseKeepErr;
+   SIfErr [SRemoveTmp; SReturn]; SRenameElse [SRemoveTmp]; SReturn].
 
 Definition no_faults (tgt : list N) : faults := mkFl false [tgt] true false false false false false.
 
@@ -143,4 +151,4 @@ Definition fs_regular (old : list N) (m : N) : fs :=
 Definition fs_symlink (old : list N) (m : N) : fs :=
   mkFS (set (set (fun _ => None) 2%N (Some (EFile 10%N))) 1%N (Some (ELink 2%N)))
        (set (fun _ => None) 10%N (Some (mkI old m))).
-Definition env0 (tgt : list N) : env := mkEnv 1%N 3%N 11%N tgt.
+Definition env0 (tgt : list N) (b : bool) : env := mkEnv 1%N 3%N 11%N tgt b.
